@@ -1223,9 +1223,19 @@ func onCloseParagraph(source []byte, originalBlock *Block) []*Block {
 	var setextOrphanParagraph *Block
 	if originalBlock.Kind() == SetextHeadingKind {
 		blockStart := originalBlock.inlineChildren[len(originalBlock.inlineChildren)-1].Span().End
-		lineStart := blockStart
-		for source[lineStart] == ' ' || source[lineStart] == '\t' {
-			lineStart++
+		// The underline is the last thing in the block:
+		// a run of one character followed by spaces, tabs, or a line ending.
+		// Scan back to its first character
+		// so that any container prefix before it (such as "> ") is not taken as text.
+		lineStart := originalBlock.Span().End
+		for lineStart > blockStart && isSpaceTabOrLineEnding(source[lineStart-1]) {
+			lineStart--
+		}
+		if lineStart > blockStart {
+			underlineChar := source[lineStart-1]
+			for lineStart > blockStart && source[lineStart-1] == underlineChar {
+				lineStart--
+			}
 		}
 		setextOrphanParagraph = &Block{
 			kind: ParagraphKind,
